@@ -26,7 +26,7 @@ def run(chk):
                 "the thorough one); operations = PutObject on a new key / over an existing object, CopyObject over an existing object, multipart completion on a new "
                 "key / over an existing object, UploadPart (incl. re-upload), DeleteObject; kill points = every verifhook site on the operation's path (the gateway "
                 "SIGKILLs itself there). After the restart: the key reads as the complete previous or the complete new state (body, length, ETag, content-type, user "
-                "metadata, tag all of one write); listings show no stray keys or duplicate versions; a new write, a delete and finally DeleteBucket succeed. "
+                "metadata, tag all of one write); listings show no stray keys, uploads or duplicate versions; the current version can be deleted by id; a new write, a delete and finally DeleteBucket succeed. "
                 "Non-trivial: the kill point was reached (the request got no answer); distinct by the tuple.")
     gwbin = gobuild.build_gateway("verif")
     built = coq.ensure_built(chk, TARGETS)
@@ -88,6 +88,9 @@ def run(chk):
                     oknew = [("1", hashlib.md5(body_of(new)).hexdigest(), len(body_of(new)))]
                     state = "old" if parts == okold else "new" if parts == oknew else "broken"
                     if state == "broken": problems.append("ListParts after the restart shows %r: neither the previous part nor the complete new one" % (parts,))
+                    lu = R.req("GET", "/" + bk, query={"uploads": ""})
+                    ups = [(u.findtext("Key"), u.findtext("UploadId")) for u in lu.xml().findall("Upload")] if lu.status == 200 and lu.xml() is not None else None
+                    if ups != [(key, uid)]: problems.append("ListMultipartUploads after the restart shows %r, expected the one upload in progress %r" % (ups, [(key, uid)]))
                     rc = R.req("PUT", path, query={"partNumber": "1", "uploadId": uid}, body=body_of(new))
                     if rc.status != 200: problems.append("the part cannot be uploaded again after the restart: %d %s" % (rc.status, rc.code))
                     R.req("DELETE", path, query={"uploadId": uid})
@@ -115,6 +118,19 @@ def run(chk):
                         rc = R.req("POST", path, query={"uploadId": uid}, body=("<CompleteMultipartUpload><Part><PartNumber>1</PartNumber><ETag>%s</ETag></Part></CompleteMultipartUpload>" % petag).encode())
                         if rc.status != 200 or classify(R.req("GET", path)) != ("write", new):
                             problems.append("the multipart upload cannot be completed after the restart (%d %s)" % (rc.status, rc.code))
+                    if versioned and state in ("old", "new") and lv.status == 200 and lv.xml() is not None:
+                        # ---- (b2) the current version can be deleted by its id, and is then gone
+                        cur = [x.findtext("VersionId") for x in lv.xml().findall("Version") if x.findtext("IsLatest") == "true"]
+                        if cur:
+                            dv = R.req("DELETE", path, query={"versionId": cur[0]})
+                            gv = R.req("GET", path, query={"versionId": cur[0]})
+                            lv2 = R.req("GET", "/" + bk, query={"versions": "", "prefix": key})
+                            ids2 = [x.findtext("VersionId") for x in lv2.xml().findall("Version")] if lv2.status == 200 and lv2.xml() is not None else []
+                            if dv.status == 204 and (gv.status == 200 or cur[0] in ids2):
+                                problems.append("after the restart DELETE ?versionId=<current version> answers 204 but the version is still %s" % (
+                                    "served" if gv.status == 200 else "listed"))
+                            elif dv.status != 204:
+                                problems.append("after the restart the current version cannot be deleted by id: %d %s" % (dv.status, dv.code))
                     # ---- (c) later operations work
                     newer = 900000 + nb[0]
                     rp_ = R.req("PUT", path, body=body_of(newer), headers=write_headers(newer))
